@@ -16,7 +16,7 @@ EXTENDS SmExpr
 RECURSIVE Val(_,_)
 Val(e,p) ==
   CASE e.op = "Variable"    -> Lit(p[e.name])
-    [] e.op = "Constant"    -> Lit(e.val)
+    [] e.op = "Constant"    -> IF e.val.k = "fold" THEN Val(e.val.e, p) ELSE Lit(e.val)   \* "fold": the value of a closed term
     [] e.op = "Add"         -> FoldLeft(LAMBDA acc, c: QAdd(acc, Val(c,p)), Q0, e.args)
     [] e.op = "Multiply"    -> FoldLeft(LAMBDA acc, c: QMul(acc, Val(c,p)), Q1, e.args)
     [] e.op = "Minus"       -> QSub(Val(e.l,p), Val(e.r,p))
@@ -45,7 +45,7 @@ DivNZ(a,b) == IF IsZero(a) /\ IsDefReal(b) THEN Q0
 RECURSIVE DV(_,_,_)
 DV(e,v,p) ==
   CASE e.op = "Variable"   -> <<Lit(p[e.name]), IF e.name = v THEN Q1 ELSE Q0>>
-    [] e.op = "Constant"   -> <<Lit(e.val), Q0>>
+    [] e.op = "Constant"   -> <<(IF e.val.k = "fold" THEN Val(e.val.e, p) ELSE Lit(e.val)), Q0>>
     [] e.op = "Add"        -> FoldLeft(LAMBDA acc, c: DAdd(acc, DV(c,v,p)), <<Q0,Q0>>, e.args)
     [] e.op = "Multiply"   -> FoldLeft(LAMBDA acc, c: DMul(acc, DV(c,v,p)), <<Q1,Q0>>, e.args)
     [] e.op = "Minus"      -> LET a == DV(e.l,v,p) b == DV(e.r,v,p) IN <<QSub(a[1],b[1]), QSub(a[2],b[2])>>
